@@ -100,7 +100,7 @@ class DataFrame(Entity, DataSet):
         """
         if len(column) != self.shape[0]:
             raise ValueError('If there are missing data, please fill in None')
-        if not index and not name:
+        if index is None and name is None:
             raise ValueError("Either index or name must not be None")
         if name is None:
             name = self._find_name_by_idx(index)
